@@ -44,6 +44,30 @@ def gen(rng, n, modes=('idle', 'lit', 'closed', 'own', 'idle_then_lit')):
     return out
 
 
+def stall_sweep(tier):
+    """Fixed programs; each thread in turn (callers, the main thread, the first pool threads) is descheduled for a
+    while at its k-th source line of the cross-loop helpers, for every k."""
+    def caller(c, start=0.0, dur=1.0, kind='coro', out='val'):
+        return {'c': c, 'thr': 'C%d' % c, 'start': start, 'fn': 'ensure_aw', 'to': 'T',
+                'aw': {'kind': kind, 'out': out, 'exccls': 'runtime', 'dur': dur}}
+    bases = [
+        {'target': 'lit', 'callers': [caller(1), caller(2, 0.0, 0.0, 'coro', 'exc')], 'stop_at': 0.0},
+        {'target': 'idle', 'callers': [caller(1, 0.0, 1.0, 'task')], 'stop_at': 0.0},
+        {'target': 'idle_then_lit', 'callers': [caller(1, 0.0, 2.0)], 'stop_at': 5.0, 'lit_at': 0.5},
+        {'target': 'closed', 'callers': [caller(1, 0.0, 0.0), caller(2, 0.0, 0.0, 'donefut')], 'stop_at': 0.0},
+    ]
+    out = []
+    for b in bases:
+        thrs = ['M'] + [cs['thr'] for cs in b['callers']] + ['P1-1', 'P1-2']
+        for thr in thrs:
+            for k in range(1, 26 if tier == 'quick' else 61):
+                sc = dict(b, callers=[dict(cs, aw=dict(cs['aw'])) for cs in b['callers']])
+                sc['stalls'] = {thr: [k, 1.5]}
+                sc['strategy'] = {'kind': 'replay', 'prefix': []}
+                out.append(sc)
+    return out
+
+
 def nontrivial(sc, r):
     return sum(1 for c in sc['callers'] if c['to'] == 'T') >= 1
 
@@ -73,6 +97,8 @@ def run(ctx):
                                    nontrivial=nontrivial, known_match=known_match)
         if len(executed) < 6000:
             executed.extend(out)
+    ctx.run_and_validate(DRIVER, COMP, TRACE, stall_sweep(ctx.tier), 'stall_sweep', nontrivial=nontrivial,
+                         known_match=known_match)
     # programs in the scope of CrossLoop.tla (every caller ensure_aw(coroutine, T)) for the conformance sample
     extra = gen(rng, 300, modes=('idle', 'lit', 'closed'))
     for sc in extra:
